@@ -1,7 +1,7 @@
 (* C12 — Hash envelopes: only conforming envelopes are produced or accepted.
    Statements only (copied from coq/theories by bin/mkprops); each proof is `exact <lemma>`. *)
 From Coq Require Import Ascii String ZArith List Bool Permutation.
-From GoCose Require Import Bytes Cbor CborProofs Res GoVal Obs Ecdsa Fx Headers Enc Dec Msg HashEnv Key SigVer Run TbsProofs FlowProofs DecProofs KeyProofs HdrProofs EncProofs EncCanon NoPanic MoreProofs EncDec HdrRoundTrip WireLeg HeWire.
+From GoCose Require Import Bytes Cbor CborProofs Res GoVal Obs Ecdsa Fx Headers Enc Dec Msg HashEnv Key SigVer Run TbsProofs FlowProofs AskedOnce DecProofs KeyProofs HdrProofs EncProofs EncCanon NoPanic MoreProofs EncDec HdrRoundTrip WireLeg HeWire.
 From GoCose.Gen Require Import Generated.
 Import ListNotations.
 Open Scope Z_scope.
@@ -99,3 +99,11 @@ Theorem C12_he_example :
   end.
 Proof. exact he_example. Qed.
 Print Assumptions C12_he_example.
+
+(* an envelope whose protected bucket names no algorithm is never returned *)
+Theorem C12_verify_he_without_alg :
+  forall vf env m0,
+  unmarshal_sign1 env = Acc m0 -> alg_of (hP (s1_h m0)) = Rej EAlgNotFound ->
+  snd (verify_he vf env) = [] /\ forall m, fst (verify_he vf env) <> Acc m.
+Proof. exact verify_he_without_alg. Qed.
+Print Assumptions C12_verify_he_without_alg.
